@@ -267,6 +267,17 @@ theorem coarse_triangulation_volume_planar (pos : Nat → V3 R) (f : List Nat) (
     volSum pos (fanTris f c) = fanSum pos f b := by
   rw [volSum_fanTris, hc]; exact fan_volume_planar pos f hne b hplanar
 
+/-- the surface that is sampled (the coarse triangulation of the input, through `convert_mesh_to_cell`) has passed the gate:
+    it is closed and its windings — hence the normals given to the sample points and used by ball pivoting — point outward,
+    whatever the windings of the input faces were.  (Needs the integrity tests in `convert_mesh_to_cell`:
+    fixes/C13-coarse-mesh-orientation.diff; `Gen.Gate.coarseMeshChecked` records whether the source has them.) -/
+theorem sampled_surface_outward (pos : Nat → V3 R) (nodes : Nat) (faces : List (List Nat)) (T : List Tri)
+    (hin : InRange (nodes + (faces.filter (fun f => f.length != 3)).length) (coarseFaces nodes faces))
+    (h : sampledSurface pos nodes faces = .ok T) : Sound pos T ∧ Rew T (coarseFaces nodes faces) := by
+  unfold sampledSurface at h
+  simp only [show coarseMeshChecked = true from rfl, if_true] at h
+  exact gate_sound pos _ _ T hin h
+
 end coarse
 
 /-! ## non-vacuity: the hypotheses are satisfiable, the rejections real -/
